@@ -165,7 +165,7 @@ async def _ensure_result_cols(
 
 
 def _binary_encode_tiny(col: ResultColumn, val: Any) -> bytes:
-    return uint_1(int(bool(val)))
+    return struct.pack("<b", int(val))
 
 
 def _binary_encode_str(col: ResultColumn, val: Any) -> bytes:
@@ -359,7 +359,7 @@ _TEXT_ENCODERS: Dict[ColumnType, Encoder] = {
     ColumnType.TIME2: _unsupported,
     ColumnType.TYPED_ARRAY: _unsupported,
     ColumnType.INVALID: _unsupported,
-    ColumnType.BOOL: _binary_encode_tiny,
+    ColumnType.BOOL: _text_encode_tiny,
     ColumnType.JSON: _text_encode_str,
     ColumnType.NEWDECIMAL: _text_encode_str,
     ColumnType.ENUM: _text_encode_str,
